@@ -132,10 +132,19 @@ int main() {
       auto schemaAuditor = schema.MakeAuditor();
       emit("c18 reset", "ok");
       for (int i = 0; i < LEN; ++i) {
-        const auto& text = sub.pick(inputs());
-        const auto hint = kHints[sub.range(0, 2)];
+        // state that only some inputs write (declared arguments of a function definition, recursion rounds, name
+        // collector) is visible only if such an input is followed by a SUCCESSFUL call of the same analyser: every
+        // fourth step is a function definition (MATH or auto-detect hint) directly followed by audits of plain inputs
+        static const std::vector<std::string> funcDefs = {
+          "[\xCE\xB1\xE2\x88\x88\xE2\x84\xAC(X1)] \xCE\xB1\xE2\x88\xAAX1", "[\xCE\xB1\xE2\x88\x88\xE2\x84\xAC(X1), \xCE\xB2\xE2\x88\x88X1] \xCE\xB2\xE2\x88\x88\xCE\xB1",
+          "F9:==[\xCE\xB1\xE2\x88\x88X1] {\xCE\xB1}", "[\xCE\xB1\xE2\x88\x88R1, \xCE\xB2\xE2\x88\x88\xE2\x84\xAC(R1)] \xCE\xB1\xE2\x88\x88\xCE\xB2" };
+        static const std::vector<std::string> plain = { "X1", "1=1", "X1\xE2\x88\xAAX2", "card(X1)+1", "Pr1(S1)" };
+        const int phase = i % 4;
+        const bool directed = phase >= 2;
+        const auto& text = phase == 2 ? sub.pick(funcDefs) : (phase == 3 ? sub.pick(plain) : sub.pick(inputs()));
+        const auto hint = directed ? kHints[sub.range(0, 1)] : kHints[sub.range(0, 2)];
         const std::string tag = std::to_string(static_cast<int>(hint)) + " " + vh::hex(text);
-        const int which = sub.range(0, 5);
+        const int which = directed ? (sub.chance(2, 3) ? 1 : 3) : sub.range(0, 5);
         if (which == 0) {
           rslang::Parser fresh{};
           const auto a = parseOutcome(parser, text, hint), b = parseOutcome(fresh, text, hint);
